@@ -1,7 +1,7 @@
 """Monitors shared between properties (installed by several property modules so that internal calls are judged too)."""
 import numpy as np
 
-from vf import taps
+from vf import taps, refmap
 from vf.digest import digest, diff, shared
 
 STRUCT_SKIP = ("points", "_landmarks")
@@ -13,6 +13,18 @@ def _is_shape(x):
         return isinstance(x, PointCloud) and taps.is_menpo(x)
     except Exception:
         return False
+
+
+def _walk_groups(x, prefix=(), depth=0):
+    """(path, group) for every landmark group of x, depth first, groups of groups included."""
+    out = []
+    lm = x.__dict__.get("_landmarks")
+    if lm is None or depth > 3:
+        return out
+    for name, g in lm._landmark_groups.items():
+        out.append((prefix + (name,), g))
+        out.extend(_walk_groups(g, prefix + (name,), depth + 1))
+    return out
 
 
 class ApplyMonitor(taps.Monitor):
@@ -37,10 +49,7 @@ class ApplyMonitor(taps.Monitor):
             clone = t.copy()
         except Exception:
             return None
-        groups = []
-        if x._landmarks is not None:
-            for name, g in x._landmarks._landmark_groups.items():
-                groups.append((name, g, digest(g), g.points.copy(), type(g)))
+        groups = [(path, g, digest(g), g.points.copy(), type(g)) for path, g in _walk_groups(x)]
         return {"kind": "shape", "clone": clone, "xdig": digest(x), "tdig": digest(t), "pts": x.points.copy(),
                 "groups": groups, "cls": type(x)}
 
@@ -53,6 +62,8 @@ class ApplyMonitor(taps.Monitor):
                 ctx.fail("apply_modified_its_input_array", cls=tcls)
             if digest(t) != st["tdig"]:
                 ctx.fail("apply_modified_the_transform", cls=tcls, mech="array_input")
+            if exc is None and isinstance(result, np.ndarray):
+                self._against_parameters(ctx, t, st["x"], result, tcls, "array")
             return
         xcls = st["cls"].__name__
         ctx.see("apply_pairs", (tcls, xcls))
@@ -60,7 +71,7 @@ class ApplyMonitor(taps.Monitor):
             ctx.fail("apply_modified_the_input_shape", cls=xcls, mech=tcls)
         for name, g, gd, gp, gc in st["groups"]:
             if digest(g) != gd:
-                ctx.fail("apply_modified_a_landmark_group_of_the_input", cls=xcls, mech=tcls, group=name)
+                ctx.fail("apply_modified_a_landmark_group_of_the_input", cls=xcls, mech=tcls, group=list(name))
         if digest(t) != st["tdig"]:
             ctx.fail("apply_modified_the_transform", cls=tcls, mech=xcls)
         if exc is not None:
@@ -86,17 +97,22 @@ class ApplyMonitor(taps.Monitor):
         ctx.err("apply_points_vs_array", e / scale)
         if e > self.rtol * scale:
             ctx.fail("shape_points_differ_from_transformed_array", cls=xcls, mech=tcls, err=e)
+        self._against_parameters(ctx, t, st["pts"], result.points, tcls, xcls)
         # landmarks moved by the same map
         rl = result._landmarks
         names = [g[0] for g in st["groups"]]
-        rnames = list(rl._landmark_groups.keys()) if rl is not None else []
+        rgroups = dict(_walk_groups(result))
+        rnames = list(rgroups.keys())
         if names != rnames:
-            ctx.fail("landmark_groups_lost_or_reordered_by_apply", cls=xcls, mech=tcls, before=names, after=rnames)
+            ctx.fail("landmark_groups_lost_or_reordered_by_apply", cls=xcls, mech=tcls + (":nested" if any(len(n) > 1 for n in names) else ""),
+                     before=[list(n) for n in names], after=[list(n) for n in rnames])
         else:
             for name, g, gd, gp, gc in st["groups"]:
-                rg = rl._landmark_groups[name]
+                rg = rgroups[name]
+                if len(name) > 1:
+                    ctx.bump("nested_landmark_groups_judged")
                 if type(rg) is not gc:
-                    ctx.fail("landmark_group_changed_class", cls=gc.__name__, mech=tcls, group=name)
+                    ctx.fail("landmark_group_changed_class", cls=gc.__name__, mech=tcls, group=list(name))
                     continue
                 try:
                     gref = st["clone"].apply(gp.copy())
@@ -104,7 +120,7 @@ class ApplyMonitor(taps.Monitor):
                     continue
                 e = _maxdiff(rg.points, gref)
                 if e > self.rtol * max(1.0, float(np.abs(gref).max()) if gref.size else 1.0):
-                    ctx.fail("landmark_group_not_moved_by_the_same_map", cls=xcls, mech=tcls, group=name, err=e,
+                    ctx.fail("landmark_group_not_moved_by_the_same_map", cls=xcls, mech=tcls + (":nested" if len(name) > 1 else ""), group=list(name), err=e,
                              lm_cls=gc.__name__)
                 # the group's own structure
                 for k in g.__dict__:
@@ -127,6 +143,37 @@ class ApplyMonitor(taps.Monitor):
         if sh:
             ctx.bump("result_shares_buffer_with_input_observed")
             ctx.see("shared_buffers", sh[0])
+
+
+def _smooth(t):
+    import menpo.transform as mt
+    if isinstance(t, mt.ThinPlateSplines):
+        return True
+    return isinstance(t, mt.TransformChain) and any(_smooth(m) for m in t.transforms)
+
+
+def _against_parameters(self, ctx, t, pts, got, tcls, xcls):
+    """The numbers equal the map the transform's public parameters define (independent evaluation, vf/refmap.py)."""
+    r = refmap.reference_apply(t, pts)
+    if r is None:
+        ctx.bump("applications_without_independent_reference")
+        return
+    ref, ok = r
+    got = np.asarray(got, dtype=float)
+    if got.shape != ref.shape:
+        ctx.fail("result_shape_differs_from_the_map_the_parameters_define", cls=tcls, mech=xcls, got=list(got.shape), expected=list(ref.shape))
+        return
+    ctx.bump("applications_judged_against_independent_reference")
+    if not ok.any():
+        return
+    scale = max(1.0, float(np.abs(ref[ok]).max()))
+    e = float(np.abs(got[ok] - ref[ok]).max())
+    ctx.err("apply_vs_parameter_defined_map", e / scale)
+    if e > (1e-6 if _smooth(t) else 1e-8) * scale:
+        ctx.fail("result_differs_from_the_map_the_parameters_define", cls=tcls, mech=xcls, err=e)
+
+
+ApplyMonitor._against_parameters = _against_parameters
 
 
 def _maxdiff(a, b):
